@@ -266,6 +266,18 @@ class Heap:
                         else:
                             continue
                 return cv[(c, nm)]
+        # an attribute the constructor of the class sets to a constant, read on an object the scenario built without running the
+        # constructor: the constant (as if the constructor had run)
+        if o['__class__'] in self.module.classes:
+            for c_ in self.module.mro(o['__class__']):
+                init_ = self.module.funcs.get('%s.__init__' % c_)
+                if init_ is None:
+                    continue
+                for st_ in init_.node.body:
+                    if isinstance(st_, ast.Assign) and len(st_.targets) == 1 and isinstance(st_.targets[0], ast.Attribute) and norm(st_.targets[0].value) == 'self' \
+                            and self.fld(st_.targets[0].attr, c_) == f and isinstance(st_.value, ast.Constant):
+                        o[f] = st_.value.value
+                        return o[f]
         # class-level alias like `append = add`
         if o['__class__'] in self.module.classes:
             node, c = self.module.class_const_node(o['__class__'], attr)
